@@ -19,6 +19,7 @@
 From RipV Require Import Base.Prelude Model.Authority Proofs.AuthorityInv Proofs.AuthorityLive Proofs.AuthorityTake Proofs.AuthorityProofs.
 From RipV Require Import Proofs.AuthorityFair Proofs.AuthorityRounds Proofs.AuthorityFresh.
 From RipV Require Import Model.AuthorityGrace Proofs.AuthorityGraceProofs Proofs.AuthorityBridge.
+From RipV Require Import Model.AuthorityProbe Proofs.AuthorityProbeProofs.
 
 (* ---- exclusive create: no dead leftovers (no files at all), ANY number of contenders, ANY crash-free schedule *)
 Theorem c18_mutex_no_leftovers : forall (ps : list proc) (es : list event),
@@ -402,3 +403,125 @@ Theorem c18_client_models_agree :
        cli me (match po_act (client_poll g (pid_alive ps) st p) with AOk => Done | _ => RdMeta end) last').
 Proof. exact client_models_agree. Qed.
 Print Assumptions c18_client_models_agree.
+
+(* ================================================================== FOURTH WAVE (auth18c): the liveness probe and the ping
+   are part of the decision "this authority is gone" (Model/AuthorityProbe.v, seeded changes C18-9 / C18-7).
+   * ptable            — the classification table of pid_liveness: signal passed to kill, answer for return value 0, the
+                         `Some(errno) => ..` arms in source order, the `_` arm; read from the source on every run
+                         (Gen/AuthProbe.v: gen_probe_table, obligation gen_probe_ok : probe_wf gen_probe_table = true).
+   * kill0 e p         — kill(pid, 0) per kill(2): the process does not exist: ESRCH; it exists and the caller may not signal
+                         it: EPERM; else success.
+   * probe_wf          — signal 0; only ESRCH is classified Dead; ESRCH is; success and EPERM are Alive.
+   * run_p t perm      — the lock protocol of Model/Authority.v with every liveness answer (steps Live / LiveM / CoLive)
+                         computed as the caller's probe of the target through table t; perm caller target = the caller may
+                         signal the target (ANY relation: processes of any uids). *)
+
+(* only "no such process" is classified Dead *)
+Theorem c18_probe_dead_only_esrch : forall (t : ptable), probe_wf t = true ->
+  forall o : probe, liveness_of t o = LvDead -> o = PrErr ESRCH.
+Proof. exact probe_dead_only_esrch. Qed.
+Print Assumptions c18_probe_dead_only_esrch.
+
+(* exists => never Dead, whether or not the caller may signal the process; gone => Dead (recovery), likewise *)
+Theorem c18_probe_exists_never_dead : forall (t : ptable), probe_wf t = true ->
+  forall permitted : bool, liveness_of t (kill0 true permitted) <> LvDead.
+Proof. exact probe_exists_never_dead. Qed.
+Print Assumptions c18_probe_exists_never_dead.
+
+Theorem c18_probe_gone_is_dead : forall (t : ptable), probe_wf t = true ->
+  forall permitted : bool, liveness_of t (kill0 false permitted) = LvDead.
+Proof. exact probe_gone_is_dead. Qed.
+Print Assumptions c18_probe_gone_is_dead.
+
+(* the recovery loops enter a cleanup that removes files (stale cleanup: StExists; the client's meta branch: LockExistsM,
+   from which the stale cleanup or the spawn follows) only when the probe's outcome was ESRCH *)
+Theorem c18_cleanup_only_after_esrch : forall (t : ptable), probe_wf t = true ->
+  forall (ag : bool) (ps : list proc) (o : N) (p : pid) (out : probe),
+  (server_next ag ps o (RLive p (says_alive t out)) = StExists p -> out = PrErr ESRCH)
+  /\ (client_next ag ps o (RLive p (says_alive t out)) = StExists p -> out = PrErr ESRCH)
+  /\ (client_next ag ps o (RLiveM p (says_alive t out)) = LockExistsM p -> out = PrErr ESRCH).
+Proof. exact cleanup_only_after_esrch. Qed.
+Print Assumptions c18_cleanup_only_after_esrch.
+
+(* the protocol with the real probe inside IS the protocol all theorems above are about — for every table meeting the
+   obligation and every permission relation between the processes *)
+Theorem c18_probed_protocol_is_the_protocol :
+  forall (t : ptable) (perm : pid -> pid -> bool) (ag : bool), probe_wf t = true ->
+  forall (es : list event) (s : state), run_p t perm ag s es = run ag s es.
+Proof. exact run_p_eq. Qed.
+Print Assumptions c18_probed_protocol_is_the_protocol.
+
+(* so: a live authority is never disturbed by contenders of ANY uid (whether or not they may signal it) *)
+Theorem c18_probed_live_authority_never_disturbed :
+  forall (t : ptable) (perm : pid -> pid -> bool), probe_wf t = true ->
+  forall (ag : bool) (b : pid) (m : metaf) (cs : list proc) (es : list event),
+  (forall q, In q cs -> contender q) ->
+  (forall e, In e es -> ev_idx e <> 0%nat) ->
+  s_lock (run_p t perm ag (init (LRec b) m (serving b :: cs)) es) = LRec b
+  /\ s_meta (run_p t perm ag (init (LRec b) m (serving b :: cs)) es) = m
+  /\ holders (run_p t perm ag (init (LRec b) m (serving b :: cs)) es) = [b]
+  /\ s_took_lock (run_p t perm ag (init (LRec b) m (serving b :: cs)) es) = false
+  /\ s_took_meta (run_p t perm ag (init (LRec b) m (serving b :: cs)) es) = false.
+Proof. exact probed_live_authority_never_disturbed. Qed.
+Print Assumptions c18_probed_live_authority_never_disturbed.
+
+Theorem c18_probed_two_authorities_only_by_taking_a_live_lock :
+  forall (t : ptable) (perm : pid -> pid -> bool), probe_wf t = true ->
+  forall (ag : bool) (l : lockf) (m : metaf) (ps : list proc) (es : list event),
+  init_ok l m ps ->
+  s_took_lock (run_p t perm ag (init l m ps) es) = false ->
+  (length (holders (run_p t perm ag (init l m ps) es)) <= 1)%nat
+  /\ (forall p, In p (holders (run_p t perm ag (init l m ps) es)) ->
+                lock_pid (s_lock (run_p t perm ag (init l m ps) es)) = Some p).
+Proof. exact probed_two_authorities_only_by_taking_a_live_lock. Qed.
+Print Assumptions c18_probed_two_authorities_only_by_taking_a_live_lock.
+
+(* hypotheses satisfiable: the expected table; authority 800, server loop 101 of another uid (no_perm: nobody may signal
+   anybody else), uid_sched = 13 steps of 101 with the endpoint silent *)
+Example c18_probe_example :
+  probe_wf full_probe_table = true
+  /\ (forall q, In q uid_procs -> contender q)
+  /\ (forall e, In e uid_sched -> ev_idx e <> 0%nat).
+Proof. exact uid_example. Qed.
+
+(* WITHOUT the obligation — EPERM classified Dead (seeded change C18-9; eperm_dead_table) — the statement is false:
+   uid_init = init (LRec 800) (MRec 800) [serving 800; fresh 101 DServer]; a contender that may not signal the live
+   authority 800 takes lock.json and meta.json and becomes a second authority.  Replayed on the real code by the harness:
+   `rip serve` as uid 65534 against a live root-owned authority on a shared store. *)
+Theorem c18_probe_eperm_dead_refuted :
+  exists (perm : pid -> pid -> bool) (sched : list event),
+    holders (run_p eperm_dead_table perm true uid_init sched) = [800; 101]
+    /\ s_lock (run_p eperm_dead_table perm true uid_init sched) = LRec 101
+    /\ s_took_lock (run_p eperm_dead_table perm true uid_init sched) = true
+    /\ s_took_meta (run_p eperm_dead_table perm true uid_init sched) = true.
+Proof. exact eperm_dead_takes_live_lock. Qed.
+Print Assumptions c18_probe_eperm_dead_refuted.
+
+Theorem c18_probe_eperm_dead_breaks_obligation : probe_wf eperm_dead_table = false.
+Proof. exact eperm_dead_table_not_wf. Qed.
+Print Assumptions c18_probe_eperm_dead_breaks_obligation.
+
+(* ---- two independent signals.  An authority whose endpoint ANSWERS is not gone, whatever the pid probe says about the pid
+   in meta.json (`live` universally quantified: a client in another pid namespace sees the authority's pid as dead): the
+   poll returns Ok(endpoint), lock.json and meta.json untouched — every table, every client state *)
+Theorem c18_client_answering_authority_untouched :
+  forall (g : gtable) (live : pid -> bool) (st : cstate) (p : pollin) (mp : pid),
+  pi_meta p = MRec mp -> pi_reach p = true ->
+  po_act (client_poll g live st p) = AOk
+  /\ po_lock (client_poll g live st p) = pi_lock p
+  /\ po_meta (client_poll g live st p) = MRec mp.
+Proof. exact client_answering_authority_untouched. Qed.
+Print Assumptions c18_client_answering_authority_untouched.
+
+Example c18_answering_example : pi_meta answering_poll = MRec 800 /\ pi_reach answering_poll = true.
+Proof. exact answering_example. Qed.
+
+(* with the probe asked first and the ping skipped when it says Dead (seeded change C18-7; client_poll_probe_first) the
+   statement is false: authority 800 holds both files and answers, the client cannot see pid 800 (other_namespace) *)
+Theorem c18_client_probe_first_refuted :
+  po_act (client_poll_probe_first full_table other_namespace cstate0 answering_poll) = AStale 800 true
+  /\ po_lock (client_poll_probe_first full_table other_namespace cstate0 answering_poll) = None
+  /\ po_meta (client_poll_probe_first full_table other_namespace cstate0 answering_poll) = MAbsent
+  /\ po_act (client_poll full_table other_namespace cstate0 answering_poll) = AOk.
+Proof. exact client_probe_first_takes_answering_authority. Qed.
+Print Assumptions c18_client_probe_first_refuted.
